@@ -181,6 +181,8 @@ def run(cx):
     cx.floor("C10.R1e", 12)
     cx.floor("C10.R1f", 6)
 
+    if cx.tier == "thorough":
+        postgres_sibling(cx)
     r2_mem(cx)
     r3_sentinel(cx)
     r4_order(cx)
@@ -365,3 +367,33 @@ def r5_ops(cx):
                 continue  # the outer `filter = Cond::all()`
             cx.ob("C10.R5", "sqlite:cond:%s" % name, allowed == exp[name],
                   "SQLite translation: `Cond::%s` is used exactly for %s (found %s)" % (name, sorted(exp[name]), sorted(allowed)), c.loc)
+
+
+def postgres_sibling(cx):
+    """thorough tier: the Postgres back end is a sibling of the SQLite one (same trait, same row types).
+    It is outside the statement of C10, so disagreements are NOTEs, never violations."""
+    m = cx.m
+    pv = Prov(m, "value")
+    fs = [f for f in m.fns.values() if f.crate == "acts_store_postgres" and f.q.endswith("::from_row")]
+    if not fs:
+        cx.note("thorough: acts_store_postgres facts not loaded")
+        return
+    n = 0
+    bad = 0
+    for f in sorted(fs, key=lambda f: f.q):
+        for c in COLLECTIONS:
+            aggs = [a for a in _aggs_by_variant(f, c.capitalize())]
+            if len(aggs) != 1:
+                continue
+            _, _, ops = aggs[0]
+            for fld in row_fields(cx, c):
+                if fld not in ops:
+                    continue
+                gets = M.origin_calls(m, f, ops[fld], r"Row>::(try_)?get$|Row::(try_)?get$|::get$")
+                cols = [M.const_str(pv.root(f, g.args[1])) for g in gets if len(g.args) > 1]
+                cols = [x for x in cols if x]
+                n += 1
+                if cols and cols[0] != fld:
+                    bad += 1
+                    cx.note("sibling acts_store_postgres: row field `%s.%s` is read from column `%s` (%s) - same construct as the repaired SQLite mapper" % (c, fld, cols[0], gets[0].loc))
+    cx.note("thorough: Postgres sibling cross-check: %d field reads compared, %d disagree" % (n, bad))
